@@ -69,11 +69,50 @@ Qed.
 Lemma existsb_all_false {A} (f : A -> bool) l : (forall x, f x = false) -> existsb f l = false.
 Proof. intros H. induction l as [|a l IH]; cbn; auto. now rewrite H, IH. Qed.
 
+Lemma del_unfold n fks d t r :
+  del (S n) fks d t r =
+  if existsb (fun f => Nat.eqb (parent f) t && restrictish (ondel f)
+                       && negb (match children d f (rid r) with [] => true | _ => false end)) fks then Err EFk
+  else
+    fold_res (fun dc f =>
+                if Nat.eqb (parent f) t then
+                  match ondel f with
+                  | Cascade => fold_res (fun dc' c => del n fks dc' (child f) c) (children dc f (rid r)) dc
+                  | SetNull =>
+                      fold_res (fun dc' c => upd n fks dc' (child f) c (set_col (ccol f) None c))
+                               (children dc f (rid r)) dc
+                  | _ => Ok dc
+                  end
+                else Ok dc) fks (set_tab d t (remove_id (rid r) (tab d t))).
+Proof. reflexivity. Qed.
+
+Lemma upd_unfold n fks d t old new :
+  upd (S n) fks d t old new =
+  if existsb (fun f => Nat.eqb (child f) t && negb (opt_eqb (get_col (ccol f) old) (get_col (ccol f) new))
+                       && negb (check_ref d f new)) fks then Err EFk
+  else if existsb (fun f => Nat.eqb (parent f) t && restrictish (eff_onupd f) && negb (rid old =? rid new)
+                            && negb (match children d f (rid old) with [] => true | _ => false end)) fks then Err EFk
+  else if negb (rid old =? rid new) && has_id (rid new) (tab d t) then Err EDup
+  else
+    fold_res (fun dc f =>
+                if Nat.eqb (parent f) t && negb (rid old =? rid new) then
+                  match eff_onupd f with
+                  | Cascade =>
+                      fold_res (fun dc' c => upd n fks dc' (child f) c (set_col (ccol f) (Some (rid new)) c))
+                               (children dc f (rid old)) dc
+                  | SetNull =>
+                      fold_res (fun dc' c => upd n fks dc' (child f) c (set_col (ccol f) None c))
+                               (children dc f (rid old)) dc
+                  | _ => Ok dc
+                  end
+                else Ok dc) fks (set_tab d t (insert_sorted new (remove_id (rid old) (tab d t)))).
+Proof. reflexivity. Qed.
+
 (* ---------------- INSERT ---------------- *)
 Theorem insert_preserves_ri fks d t r d' :
   RI fks d -> exec_res fks d (SInsert t r) = Ok d' -> RI fks d'.
 Proof.
-  intros HRI H. cbn in H.
+  intros HRI H. cbn [exec_res] in H.
   destruct (existsb _ fks) eqn:Ex; [discriminate|].
   destruct (has_id (rid r) (tab d t)); [discriminate|]. injection H as <-.
   intros f c k Hf Hc Hk.
@@ -105,10 +144,10 @@ Theorem delete_restrict_preserves_ri fks d t k d' :
   (forall f, In f fks -> parent f = t -> restrictish (ondel f) = true) ->
   RI fks d -> exec_res fks d (SDelete t k) = Ok d' -> RI fks d'.
 Proof.
-  intros Hres HRI H. cbn in H.
+  intros Hres HRI H. cbn [exec_res] in H.
   destruct (find_id k (tab d t)) as [r|] eqn:Ef; [|now injection H as <-].
   apply find_id_some in Ef. destruct Ef as [Hr Hrk].
-  cbn in H. destruct (existsb _ fks) eqn:Ex; [discriminate|].
+  change fuel0 with (S 19) in H. rewrite del_unfold in H. destruct (existsb _ fks) eqn:Ex; [discriminate|].
   rewrite fold_res_all_ok in H.
   2:{ intros dc f Hf. destruct (Nat.eqb_spec (parent f) t) as [E|E]; auto.
       specialize (Hres f Hf E). destruct (ondel f); cbn in Hres; try discriminate; reflexivity. }
@@ -136,13 +175,13 @@ Qed.
 Theorem update_column_preserves_ri fks d t k c v d' :
   RI fks d -> exec_res fks d (SUpdCol t k c v) = Ok d' -> RI fks d'.
 Proof.
-  intros HRI H. cbn in H.
+  intros HRI H. cbn [exec_res] in H.
   destruct (find_id k (tab d t)) as [r|] eqn:Ef; [|now injection H as <-].
   apply find_id_some in Ef. destruct Ef as [Hr Hrk].
   destruct (opt_eqb (get_col c r) v); [now injection H as <-|].
-  cbn in H.
+  change fuel0 with (S 19) in H. rewrite upd_unfold in H.
   assert (Hid : rid (set_col c v r) = rid r) by (unfold set_col, rid; destruct c; reflexivity).
-  rewrite Hid, Z.eqb_refl in H. cbn in H.
+  rewrite Hid, Z.eqb_refl in H. cbn [negb andb] in H.
   destruct (existsb _ fks) eqn:Ex; [discriminate|].
   rewrite existsb_all_false in H.
   2:{ intros f. rewrite andb_false_r. reflexivity. }
